@@ -22,8 +22,9 @@ CONSTANTS N, LimR, LimD,
 
 OM == INSTANCE OpMachine
 
-VARIABLES os, prev, pendEF, bad
-ovars == <<os, prev, pendEF, bad>>
+VARIABLES os, prev, pendEF, bad,
+          prog            \* history: the operations taken, <<type, a, b, lev, last>> (hidden by the VIEW)
+ovars == <<os, prev, pendEF, bad, prog>>
 rvars == <<evars, ovars>>
 
 P == [l |-> N - 1, K |-> 2, cap |-> <<LimR, LimD>>, w |-> <<0, 1>>, r |-> <<0, 1>>, uf |-> 1, ub |-> 1,
@@ -51,13 +52,14 @@ Image(o, last) ==
 
 Init ==
   /\ ExecInit(Profile, N)
-  /\ os = OM!OpInit(P) /\ prev = <<OM!OX, 0, 0, 0>> /\ pendEF = FALSE /\ bad = {}
+  /\ os = OM!OpInit(P) /\ prev = <<OM!OX, 0, 0, 0>> /\ pendEF = FALSE /\ bad = {} /\ prog = <<>>
 
 StepOp(o, last) ==
   /\ ~pendEF
   /\ OM!OpClauses(P, os, o, last) = {}
   /\ os' = OM!OpEffect(P, os, o, last)
   /\ prev' = o
+  /\ prog' = Append(prog, <<o[1], o[2], o[3], o[4], IF last THEN 1 ELSE 0>>)
   /\ IF HasImage(o)
        THEN LET e == Image(o, last) IN
             /\ ActEffect(e)
@@ -68,14 +70,14 @@ StepOp(o, last) ==
 StepEF ==
   /\ pendEF
   /\ ActEffect(EndF) /\ bad' = bad \cup ActClauses(EndF) \cup StateClausesNext
-  /\ pendEF' = FALSE /\ UNCHANGED <<os, prev>>
+  /\ pendEF' = FALSE /\ UNCHANGED <<os, prev, prog>>
 
 (* the program is complete: the stream is closed by EndReverse *)
 StepEnd ==
   /\ ~pendEF /\ os.adj = 0 /\ phase # "done"
   /\ OM!EndClauses(P, os) = {}
   /\ ActEffect(EndR) /\ bad' = bad \cup ActClauses(EndR) \cup StateClausesNext
-  /\ UNCHANGED <<os, prev, pendEF>>
+  /\ UNCHANGED <<os, prev, pendEF, prog>>
 
 Next ==
   \/ \E o \in Ops : \E last \in BOOLEAN : (o[1] = OM!OR \/ ~last) /\ StepOp(o, last)
@@ -84,7 +86,7 @@ Next ==
 
 Spec == Init /\ [][Next]_rvars
 
-View == <<maxN, fwd, adj, wIcs, wDeps, lost, ram, disk, phase, atEF, os.buf, os.st, os.ext, os.pw, os.fresh, os.armed, os.tape, os.adj,
+View == <<maxN, fwd, adj, wIcs, wDeps, lost, ram, disk, phase, atEF, os.buf, os.st, os.ext, os.pw, os.fresh, os.wrote, os.armed, os.tape, os.adj,
           prev[1], prev[2], prev[4], pendEF, bad>>
 
 (* ---- the refinement ---- *)
@@ -96,6 +98,11 @@ Projection ==
        (\A k \in 1..2 : os.st[k] \ (IF prev[1] = OM!OW /\ prev[4] = k - 1 THEN {prev[2]} ELSE {})
                          = DOMAIN (IF k = 1 THEN ram ELSE disk))       \* a Write is carried out by the next Forward
   /\ (os.buf # OM!NoBuf /\ ~pendEF /\ prev[1] # OM!OR) => fwd = os.buf
+(* ---- spec -> code: complete accepted programs, printed for replay into the REAL converter ---- *)
+ViewProg == <<View, prog>>
+CONSTANT TB
+CostBound == os.t <= TB /\ prev[1] # OM!OD       \* CONSTRAINT of the program generator
+Emit == (phase = "done") => PrintT(<<"@V", N, LimR, LimD, prog, "V@">>)
 (* ---- reachability (EXPECTED to be violated): a complete program exists ---- *)
 ReachDone == phase # "done"
 ReachDiskRead == ~(\E n \in DOMAIN disk : TRUE) \/ os.adj > 1
